@@ -70,6 +70,19 @@ type lists3 struct {
 	In2 []inl2 `tlv8:"-"`
 	T   uint8  `tlv8:"1"`
 }
+
+// an inline list whose elements have a field that may be absent (an empty string is not encoded) BEFORE a field that is
+// always present: the segment of an element is where its earliest value lies, whichever field that is
+type inl3 struct {
+	N string `tlv8:"10"`
+	V uint8  `tlv8:"7"`
+	K []byte `tlv8:"11"`
+	U uint16 `tlv8:"8"`
+}
+type lists4 struct {
+	In3 []inl3 `tlv8:"-"`
+	T   uint8  `tlv8:"1"`
+}
 type onlyFloat struct {
 	H float32 `tlv8:"2"`
 }
@@ -372,7 +385,7 @@ func normalise(v reflect.Value) {
 
 var tlvShapes = map[string]func() interface{}{
 	"leafAll": func() interface{} { return &leafAll{} }, "small": func() interface{} { return &small{} }, "nested": func() interface{} { return &nested{} },
-	"withLists": func() interface{} { return &withLists{} }, "lists2": func() interface{} { return &lists2{} }, "lists3": func() interface{} { return &lists3{} }, "onlyFloat": func() interface{} { return &onlyFloat{} }, "onlyI64": func() interface{} { return &onlyI64{} },
+	"withLists": func() interface{} { return &withLists{} }, "lists2": func() interface{} { return &lists2{} }, "lists3": func() interface{} { return &lists3{} }, "lists4": func() interface{} { return &lists4{} }, "onlyFloat": func() interface{} { return &onlyFloat{} }, "onlyI64": func() interface{} { return &onlyI64{} },
 	"rtp.SetupEndpoints": func() interface{} { return &rtp.SetupEndpoints{} }, "rtp.SetupEndpointsResponse": func() interface{} { return &rtp.SetupEndpointsResponse{} },
 	"rtp.StreamConfiguration": func() interface{} { return &rtp.StreamConfiguration{} }, "rtp.VideoStreamConfiguration": func() interface{} { return &rtp.VideoStreamConfiguration{} },
 	"rtp.AudioStreamConfiguration": func() interface{} { return &rtp.AudioStreamConfiguration{} }, "rtp.StreamingStatus": func() interface{} { return &rtp.StreamingStatus{} },
